@@ -139,9 +139,12 @@ def run(tier: str) -> int:
     budget = 75 if tier == "quick" else 1500
     directed = directed_programs()
     stats["directed programs"] = len(directed)
+    t_loop0 = time.time()
     for i in range(-len(directed), nprog):
-        if time.time() - rep.t0 > budget:
-            rep.notes.append(f"time budget reached after {i} programs")
+        # the budget counts from the start of this loop (the proof stage before it depends on machine load) and never cuts
+        # the directed programs nor the first 40 random ones
+        if i >= 40 and time.time() - t_loop0 > budget:
+            rep.notes.append(f"time budget reached after {i} random programs")
             break
         if i < 0:
             _dname, p = directed[i + len(directed)]
